@@ -41,7 +41,7 @@ ANCHORS = ['array:Array.iterappend', 'array:Array._append', 'array:Array._update
 REQUIRED = ['mon.line_states', 'mon.torn_states', 'mon.opens_raised', 'mon.opens_succeeded_legit']
 MIN_NONTRIVIAL = {'quick': 1500, 'thorough': 15000}
 
-OPS = ['append', 'iterappend3', 'iterappend_raises', 'iterappend_badchunk', 'iterappend_empty_chunks', 'append_twice',
+OPS = ['append', 'iterappend3', 'iterappend_from_darr', 'iterappend_raises', 'iterappend_badchunk', 'iterappend_empty_chunks', 'append_twice',
        'truncate1', 'truncate0', 'truncatem1', 'truncate_then_append', 'md_setitem', 'md_update', 'md_pop', 'md_poplast',
        'md_popitem', 'md_del']
 KINDS = ['array1d', 'array2d', 'ragged', 'ragged2']
@@ -204,6 +204,17 @@ def run_case(case, env):
 
         legit = [cat(0)]
         raised = None
+        src_obj = None
+        if op == 'iterappend_from_darr':
+            if ragged:
+                src_obj = D.asraggedarray(d / 'src', [c.copy() for c in chunks], dtype=dtype)
+            else:
+                eq = [c[:len(chunks[0])] if len(c) >= len(chunks[0]) else None for c in chunks]
+                if any(e is None for e in eq):
+                    chunks = [chunks[0]] * 3
+                else:
+                    chunks = eq
+                src_obj = D.asarray(d / 'src', np.concatenate(chunks, axis=0).astype(dtype))
         with Recorder(path) as rec:
             try:
                 if op == 'append':
@@ -212,6 +223,10 @@ def run_case(case, env):
                 elif op == 'iterappend3':
                     h.iterappend(c for c in chunks)
                     legit += [cat(1), cat(2), cat(3)]
+                elif op == 'iterappend_from_darr':
+                    # the iterable is itself a Darr object (a RaggedArray, or the chunks of an Array)
+                    legit += [cat(1), cat(2), cat(3)]
+                    h.iterappend(src_obj if ragged else src_obj.iterchunks(len(chunks[0])))
                 elif op == 'iterappend_raises':
                     legit += [cat(1), cat(2)]
                     h.iterappend(failing_iter(chunks, 2))
